@@ -50,26 +50,28 @@ func loadExtremes(c *vlib.Ctx) ([]ext, []string) {
 }
 
 type ledgerStats struct {
-	mu              sync.Mutex
-	heavyMu         sync.Mutex       // entries that may take long run one at a time (so that a hang is found once, not by every goroutine at once)
-	mutants         int64            // mutants executed (raw + sealed)
-	notApplicable   int64            // (entry, transaction) pairs the entry does not apply to
-	perEntry        map[string]int64 // entry point -> executions
-	perEntryOK      map[string]int64 // entry point -> executions that returned nil (accepted)
-	perFam          map[string]int64 // family -> mutants
-	entriesHit      map[int]bool     // catalogue entries applied at least once
-	accepted        map[string]int64 // class -> mutants that passed ValidateBlock and were applied + reverted
-	appliedReverted int64
-	distinct        map[string]bool // (entry, sealed, transaction shape, era)
-	blocks          int64
-	fixed           int                // fixed behaviours replayed (scenarios.go)
-	hung            map[string]bool    // classes seen to be slow or not to return: not executed again (each costs that long again)
-	slow            map[string]float64 // observation: key -> seconds of the slowest call (calls that return, but take more than slowThreshold)
-	skippedHung     int64
-	followUps       map[string]int64 // follow-up blocks executed, by kind
-	notDecodable    map[string]int64 // mutants not executed because no codec round-trips the changed transaction
-	unknown         map[string]bool
-	samples         []any
+	mu                             sync.Mutex
+	heavyMu                        sync.Mutex       // entries that may take long run one at a time (so that a hang is found once, not by every goroutine at once)
+	mutants                        int64            // mutants executed (raw + sealed)
+	notApplicable                  int64            // (entry, transaction) pairs the entry does not apply to
+	perEntry                       map[string]int64 // entry point -> executions
+	perEntryOK                     map[string]int64 // entry point -> executions that returned nil (accepted)
+	perFam                         map[string]int64 // family -> mutants
+	entriesHit                     map[int]bool     // catalogue entries applied at least once
+	accepted                       map[string]int64 // class -> mutants that passed ValidateBlock and were applied + reverted
+	appliedReverted                int64
+	distinct                       map[string]bool // (entry, sealed, transaction shape, era)
+	blocks                         int64
+	fixed                          int   // fixed behaviours replayed (scenarios.go)
+	honestBehaviours, honestBlocks int64 // exhaustive narrow families of honest blocks (exhaustive.go)
+	honestPerFamily                map[string]int
+	hung                           map[string]bool    // classes seen to be slow or not to return: not executed again (each costs that long again)
+	slow                           map[string]float64 // observation: key -> seconds of the slowest call (calls that return, but take more than slowThreshold)
+	skippedHung                    int64
+	followUps                      map[string]int64 // follow-up blocks executed, by kind
+	notDecodable                   map[string]int64 // mutants not executed because no codec round-trips the changed transaction
+	unknown                        map[string]bool
+	samples                        []any
 }
 
 func newLedgerStats() *ledgerStats {
@@ -490,12 +492,12 @@ func runLedger(c *vlib.Ctx, exts []ext) (*ledgerStats, chain.RunStats) {
 		num   int
 	}
 	runs := []run{
-		{"v1only", chain.AllTemplates, c.Pick(10, 120)},
-		{"mixed", chain.AllTemplates, c.Pick(10, 120)},
-		{"v2only", chain.AllTemplates, c.Pick(10, 120)},
-		{"ephlate", []string{"pay", "pay2", "sf"}, c.Pick(8, 80)},
-		{"v1only", []string{"form1", "rev1", "prove1"}, c.Pick(6, 60)},
-		{"v2only", []string{"form2", "rev2", "res2", "renew2"}, c.Pick(6, 60)},
+		{"v1only", chain.AllTemplates, c.Pick(8, 120)},
+		{"mixed", chain.AllTemplates, c.Pick(8, 120)},
+		{"v2only", chain.AllTemplates, c.Pick(8, 120)},
+		{"ephlate", []string{"pay", "pay2", "sf"}, c.Pick(6, 80)},
+		{"v1only", []string{"form1", "rev1", "prove1"}, c.Pick(5, 60)},
+		{"v2only", []string{"form2", "rev2", "res2", "renew2"}, c.Pick(5, 60)},
 	}
 	// every block gets 1/stride of its applicable entries; the phase rotates so that all entries are used across blocks
 	stride := c.Pick(8, 2)
@@ -551,6 +553,14 @@ func runLedger(c *vlib.Ctx, exts []ext) (*ledgerStats, chain.RunStats) {
 			tmu.Unlock()
 		}(rn)
 	}
+	wg.Add(1)
+	go func() {
+		defer wg.Done()
+		b, bl, per := runHonestFamilies(c, st, exts)
+		st.mu.Lock()
+		st.honestBehaviours, st.honestBlocks, st.honestPerFamily = b, bl, per
+		st.mu.Unlock()
+	}()
 	wg.Add(1)
 	go func() {
 		defer wg.Done()
